@@ -664,3 +664,156 @@ func boolOr(v Value) *Term {
 	}
 	return TS.False
 }
+
+// ---------- TryLock and sync/atomic ----------
+
+// tryLockOp: the harness is one sequential thread, but TryLock exists for the case that
+// *another* goroutine holds the mutex.  A free mutex is therefore acquired or not by an
+// arbitrary environment choice (fresh Boolean); a mutex this thread holds is never acquired.
+func tryLockOp(read bool) intrinsicFn {
+	return func(m *Machine, args []Value, g *Term, site ssa.Instruction) Value {
+		m.stubsUsed["sync.Mutex/RWMutex.TryLock = may fail arbitrarily (another goroutine may hold the lock)"]++
+		p := args[0].(*PtrV)
+		res := TS.False
+		for _, a := range p.Alts {
+			key := fmt.Sprintf("lock#%d%v", a.Obj.id, a.Path)
+			cg := And(g, a.G)
+			st, _ := m.ghost[key].(*Term)
+			if st == nil {
+				st = TS.False
+			}
+			rd, _ := m.ghost[key+"r"].(*Term)
+			if rd == nil {
+				rd = Const(64, 0)
+			}
+			free := Not(st)
+			if !read {
+				free = And(free, Eq(rd, Const(64, 0)))
+			}
+			ok := And(free, m.fresh("trylock", BoolSort))
+			tg := And(cg, ok)
+			if read {
+				m.ghost[key+"r"] = Ite(tg, Add(rd, Const(64, 1)), rd)
+			} else {
+				m.ghost[key] = Or(st, tg)
+			}
+			old, _ := m.ghost[key+"acq"].(*Term)
+			if old == nil {
+				old = TS.False
+			}
+			m.ghost[key+"acq"] = Or(old, tg)
+			if m.lockWatch != nil && !tg.IsFalse() {
+				m.lockWatch.lockEvent(m, key, true, read, tg)
+			}
+			res = Or(res, And(a.G, ok))
+		}
+		return res
+	}
+}
+
+// atomicField: pointer to the value field ("v") of a sync/atomic typed value.
+func (m *Machine) atomicField(p *PtrV, typeName string) *PtrV {
+	pkg := m.prog.ImportedPackage("sync/atomic")
+	if pkg == nil {
+		panic(notEncoded("sync/atomic not loaded"))
+	}
+	st := pkg.Pkg.Scope().Lookup(typeName).Type().Underlying().(*types.Struct)
+	idx := -1
+	for i := 0; i < st.NumFields(); i++ {
+		if st.Field(i).Name() == "v" {
+			idx = i
+		}
+	}
+	if idx < 0 {
+		panic(notEncoded("sync/atomic.%s layout", typeName))
+	}
+	r := &PtrV{}
+	for _, a := range p.Alts {
+		r.Alts = append(r.Alts, PtrAlt{a.G, a.Obj, append(append([]int{}, a.Path...), idx)})
+	}
+	return r
+}
+
+func init() {
+	intrinsicTable["(*sync.Mutex).TryLock"] = tryLockOp(false)
+	intrinsicTable["(*sync.RWMutex).TryLock"] = tryLockOp(false)
+	intrinsicTable["(*sync.RWMutex).TryRLock"] = tryLockOp(true)
+	const note = "sync/atomic = plain sequential cell"
+	// atomic.Value: an interface cell
+	intrinsicTable["(*sync/atomic.Value).Load"] = func(m *Machine, args []Value, g *Term, site ssa.Instruction) Value {
+		m.stubsUsed[note]++
+		return m.load(m.atomicField(args[0].(*PtrV), "Value"), g, site)
+	}
+	intrinsicTable["(*sync/atomic.Value).Store"] = func(m *Machine, args []Value, g *Term, site ssa.Instruction) Value {
+		m.stubsUsed[note]++
+		m.store(m.atomicField(args[0].(*PtrV), "Value"), args[1], g, site)
+		return nil
+	}
+	intrinsicTable["(*sync/atomic.Value).Swap"] = func(m *Machine, args []Value, g *Term, site ssa.Instruction) Value {
+		m.stubsUsed[note]++
+		fp := m.atomicField(args[0].(*PtrV), "Value")
+		old := m.load(fp, g, site)
+		m.store(fp, args[1], g, site)
+		return old
+	}
+	// typed integers / booleans (Go 1.19+) and the function forms on plain pointers
+	for _, tn := range []string{"Int32", "Int64", "Uint32", "Uint64", "Bool"} {
+		tn := tn
+		fld := func(m *Machine, p Value) *PtrV { return m.atomicField(p.(*PtrV), tn) }
+		intrinsicTable["(*sync/atomic."+tn+").Load"] = func(m *Machine, args []Value, g *Term, site ssa.Instruction) Value {
+			m.stubsUsed[note]++
+			v := m.load(fld(m, args[0]), g, site)
+			if tn == "Bool" {
+				return Not(Eq(v.(*Term), Const(32, 0)))
+			}
+			return v
+		}
+		intrinsicTable["(*sync/atomic."+tn+").Store"] = func(m *Machine, args []Value, g *Term, site ssa.Instruction) Value {
+			m.stubsUsed[note]++
+			v := args[1]
+			if tn == "Bool" {
+				v = Ite(args[1].(*Term), Const(32, 1), Const(32, 0))
+			}
+			m.store(fld(m, args[0]), v, g, site)
+			return nil
+		}
+		if tn == "Bool" {
+			continue
+		}
+		intrinsicTable["(*sync/atomic."+tn+").Add"] = func(m *Machine, args []Value, g *Term, site ssa.Instruction) Value {
+			m.stubsUsed[note]++
+			fp := fld(m, args[0])
+			n := Add(m.load(fp, g, site).(*Term), args[1].(*Term))
+			m.store(fp, n, g, site)
+			return n
+		}
+		intrinsicTable["(*sync/atomic."+tn+").CompareAndSwap"] = func(m *Machine, args []Value, g *Term, site ssa.Instruction) Value {
+			m.stubsUsed[note]++
+			fp := fld(m, args[0])
+			hit := Eq(m.load(fp, g, site).(*Term), args[1].(*Term))
+			m.store(fp, args[2], And(g, hit), site)
+			return hit
+		}
+		intrinsicTable["sync/atomic.Load"+tn] = func(m *Machine, args []Value, g *Term, site ssa.Instruction) Value {
+			m.stubsUsed[note]++
+			return m.load(args[0].(*PtrV), g, site)
+		}
+		intrinsicTable["sync/atomic.Store"+tn] = func(m *Machine, args []Value, g *Term, site ssa.Instruction) Value {
+			m.stubsUsed[note]++
+			m.store(args[0].(*PtrV), args[1], g, site)
+			return nil
+		}
+		intrinsicTable["sync/atomic.Add"+tn] = func(m *Machine, args []Value, g *Term, site ssa.Instruction) Value {
+			m.stubsUsed[note]++
+			n := Add(m.load(args[0].(*PtrV), g, site).(*Term), args[1].(*Term))
+			m.store(args[0].(*PtrV), n, g, site)
+			return n
+		}
+		intrinsicTable["sync/atomic.CompareAndSwap"+tn] = func(m *Machine, args []Value, g *Term, site ssa.Instruction) Value {
+			m.stubsUsed[note]++
+			hit := Eq(m.load(args[0].(*PtrV), g, site).(*Term), args[1].(*Term))
+			m.store(args[0].(*PtrV), args[2], And(g, hit), site)
+			return hit
+		}
+	}
+}
